@@ -208,8 +208,10 @@ class SymmetryAnalyzer(object):
         rotations = operations["rotations"]
         chiral = True
         for rotation in rotations:
+            # The rotations are integer matrices with a determinant of +-1, but
+            # the floating point determinant is not always exactly -1.0
             determinant = np.linalg.det(rotation)
-            if determinant == -1.0:
+            if determinant < 0:
                 return False
 
         return chiral
